@@ -528,10 +528,12 @@ func (bh *Header) RemoveReference(r *Reference) error {
 		return errInvalidReference
 	}
 	bh.refs = append(bh.refs[:r.id], bh.refs[r.id+1:]...)
-	for i := range bh.refs[r.id:] {
-		bh.refs[i+int(r.id)].id--
+	for _, ref := range bh.refs[r.id:] {
+		ref.id--
+		bh.seenRefs[ref.name] = ref.id
 	}
 	r.id = -1
+	r.owner = nil
 	delete(bh.seenRefs, r.name)
 	return nil
 }
@@ -554,14 +556,16 @@ func (bh *Header) AddReadGroup(rg *ReadGroup) error {
 // RemoveReadGroup removes rg from the Header and makes it
 // available to add to another Header.
 func (bh *Header) RemoveReadGroup(rg *ReadGroup) error {
-	if rg.id < 0 || int(rg.id) >= len(bh.refs) || bh.rgs[rg.id] != rg {
+	if rg.id < 0 || int(rg.id) >= len(bh.rgs) || bh.rgs[rg.id] != rg {
 		return errInvalidReadGroup
 	}
 	bh.rgs = append(bh.rgs[:rg.id], bh.rgs[rg.id+1:]...)
-	for i := range bh.rgs[rg.id:] {
-		bh.rgs[i+int(rg.id)].id--
+	for _, g := range bh.rgs[rg.id:] {
+		g.id--
+		bh.seenGroups[g.name] = g.id
 	}
 	rg.id = -1
+	rg.owner = nil
 	delete(bh.seenGroups, rg.name)
 	return nil
 }
@@ -588,10 +592,12 @@ func (bh *Header) RemoveProgram(p *Program) error {
 		return errInvalidProgram
 	}
 	bh.progs = append(bh.progs[:p.id], bh.progs[p.id+1:]...)
-	for i := range bh.progs[p.id:] {
-		bh.progs[i+int(p.id)].id--
+	for _, q := range bh.progs[p.id:] {
+		q.id--
+		bh.seenProgs[q.uid] = q.id
 	}
 	p.id = -1
+	p.owner = nil
 	delete(bh.seenProgs, p.uid)
 	return nil
 }
